@@ -232,8 +232,9 @@ def poly_summary(chk, fi, c, rename):
         if len(incs) == 1 and coef is not None:
             ck = Normaliser(rename=ren).arg(ast.parse(coef, mode="eval").body)
             out["term"] = env.poly(incs[0].value).subst_atoms(lambda a_: "c_k" if a_ == ck else a_).canon()
-        else:
+        elif incs:
             out["term"] = None
+        # no accumulation statement in the loop at all: the terms are combined some other way (reduce, sum of a generator ...), not located
     rets = [n for n in ast.walk(fi.node) if isinstance(n, ast.Return) and n.value is not None]
     if rets:
         out["result"] = norm.poly(rets[0].value).canon()
@@ -275,7 +276,7 @@ def poly_rules(chk):
     sa_, sb_ = canon(sa_), canon(sb_)
     chk.ob("R-POLY-SIB", "Signal.remove_poly~generic.remove_poly", "equal summaries (abscissa, fit, range, term, result)", (sa_ == sb_ and
            all(v is not None for v in sa_.values())) or deleg, derived="the method delegates to the function" if deleg else "%s vs %s" % (sa_, sb_),
-           loc=a.loc())
+           loc=a.loc(), inconclusive=("term" not in sa_ or "term" not in sb_))
     for nm, s, fi in (("Signal.remove_poly", sa_, a), ("generic.remove_poly", sb_, b)):
         if deleg and fi is a:
             continue
@@ -285,9 +286,11 @@ def poly_rules(chk):
         chk.ob("R-POLY-SIB", c + "{fit}", "polyfit(x, values, poly_fit)", s.get("fit") == ("x", "values", "poly_fit"), derived="%s" % (s.get("fit"),),
                loc=fi.loc())
         chk.ob("R-POLY-SIB", c + "{range}", "all coefficients of the fit are used", s.get("range") == "all coefficients of the fit", derived="%s" % s.get("range"),
+               inconclusive="range" not in s,          # no coefficient loop in this design: nothing located
                loc=fi.loc())
         chk.ob("R-POLY-SIB", c + "{term}", "term k is c_k * x ** (poly_fit - k)", s.get("term") in
-               ("1*(1*x)**(-1*k + 1*poly_fit)*c_k", "1*(1*x)**(1*poly_fit + -1*k)*c_k"), derived="%s" % s.get("term"), loc=fi.loc())
+               ("1*(1*x)**(-1*k + 1*poly_fit)*c_k", "1*(1*x)**(1*poly_fit + -1*k)*c_k"), derived="%s" % s.get("term"), loc=fi.loc(),
+               inconclusive="term" not in s)
         chk.ob("R-POLY-SIB", c + "{result}", "result = values - correction", s.get("result") == "1*values + -1*y_cor", derived="%s" % s.get("result"),
                loc=fi.loc())
     # typing: linear in the record, same length
